@@ -65,9 +65,11 @@ impl ZodBindingsGenerator {
             .collect();
 
         let enum_values = variants.join(", ");
+        // Like object schemas, an enum needs its inferred type alias: commands.ts and events.ts
+        // refer to it as `types.{name}`
         format!(
-            "export const {}Schema = z.enum([{}]);\n\n",
-            name, enum_values
+            "export const {}Schema = z.enum([{}]);\n\nexport type {} = z.infer<typeof {}Schema>;\n\n",
+            name, enum_values, name, name
         )
     }
 
